@@ -20,6 +20,15 @@ pub fn poll_once(f: &mut Loop) -> bool {
     match f.as_mut().poll(&mut cx) { std::task::Poll::Ready(_) => true, std::task::Poll::Pending => false }
 }
 pub struct CNode { pub dbs: Arc<Databases>, pub sup_rx: Receiver<String>, pub repl: Loop, pub name: String }
+/// connections opened by a real supervisor (add_*_to_* -> start_replication stub): (opening node, peer, peer is secondary of a primary, queue towards the peer)
+pub static mut CONNECTIONS: Vec<(String, String, bool, Receiver<String>)> = Vec::new();
+pub fn register_connection(from: String, to: String, is_primary: bool, rx: Receiver<String>) { unsafe { (&mut *std::ptr::addr_of_mut!(CONNECTIONS)).push((from, to, is_primary, rx)); } }
+/// the node's real `start_replication_supervisor` coroutine; takes over the supervisor queue (call after the set-up traffic was drained)
+pub fn start_supervisor(node: &mut CNode) -> Loop {
+    let (_tx, dummy): (Sender<String>, Receiver<String>) = channel(1);
+    let rx = std::mem::replace(&mut node.sup_rx, dummy);
+    Box::pin(crate::replication_ops::start_replication_supervisor(rx, node.dbs.clone(), Arc::new(node.name.clone())))
+}
 pub fn mk_cnode(name: &str, process_id: u128, role: ClusterRole) -> CNode {
     let (s1, sup_rx): (Sender<String>, Receiver<String>) = channel(1000);
     let (s2, rep_rx): (Sender<String>, Receiver<String>) = channel(1000);
@@ -50,7 +59,7 @@ pub fn connect(nodes: &Vec<CNode>, from: usize, to: usize, to_role: ClusterRole,
     { let mut m = conn.cluster_member.lock().unwrap(); *m = Some(ClusterMember { name: nodes[from].name.clone(), role: ClusterRole::Secoundary, sender: None }); }
     Link { from, to, out_rx, server, server_rx, conn, conn_rx, forwarded: 0, back: 0 }
 }
-pub struct Cluster { pub nodes: Vec<CNode>, pub links: Vec<Link>, pub supervise: bool }
+pub struct Cluster { pub nodes: Vec<CNode>, pub links: Vec<Link>, pub supervise: bool, pub sups: Vec<Option<Loop>> }
 /// primary n1 with `secondaries` secondaries n2.., full mesh of connections as the supervisor builds it
 pub fn mk_cluster(secondaries: usize) -> Cluster {
     let mut nodes = vec![mk_cnode("n1", 1, ClusterRole::Primary)];
@@ -69,27 +78,8 @@ pub fn mk_cluster(secondaries: usize) -> Cluster {
     }
     // setup traffic (set-primary makes a secondary ask its supervisor to connect back) is not part of the operation under test
     let mut k = 0; while k < nodes.len() { drain(&mut nodes[k].sup_rx); k += 1; }
-    Cluster { nodes, links, supervise: false }
-}
-/// what the supervisor does with the bookkeeping messages of a primary hand-over (replication_ops.rs, start_replication_supervisor:
-/// arms election-win / primary / leave); connection management (new-secoundary, connect back) is not modelled
-pub fn cluster_supervisor_step(node: &mut CNode) -> bool {
-    match node.sup_rx.try_next() {
-        Ok(Some(msg)) => {
-            let mut it = msg.splitn(2, " ");
-            let cmd = it.next().unwrap_or(""); let name = String::from(it.next().unwrap_or(""));
-            if cmd == "election-win" {
-                node.dbs.add_cluster_member(ClusterMember { name: node.name.clone(), role: ClusterRole::Primary, sender: None });
-                let _ = node.dbs.replicate_message(["set-primary ", &node.name].concat());
-            } else if cmd == "primary" {
-                if node.dbs.has_cluster_memeber(&name) { node.dbs.promote_member(&name); }
-            } else if cmd == "leave" {
-                if name != node.name { node.dbs.remove_cluster_member(&name); }
-            }
-            true
-        }
-        _ => false,
-    }
+    let mut sups: Vec<Option<Loop>> = Vec::new(); let mut k = 0; while k < nodes.len() { sups.push(None); k += 1; }
+    Cluster { nodes, links, supervise: false, sups }
 }
 impl Cluster {
     /// number of enabled events: one per link direction with a queued line, one per node whose replication loop has input
@@ -103,7 +93,7 @@ impl Cluster {
         }
         let mut n = 0;
         while n < self.nodes.len() { if self.nodes[n].dbs.replication_sender.len() > 0 { ev.push((2usize, n)); } n += 1; }
-        if self.supervise { let mut n = 0; while n < self.nodes.len() { if self.nodes[n].sup_rx.len() > 0 { ev.push((3usize, n)); } n += 1; } }
+        if self.supervise { let mut n = 0; while n < self.nodes.len() { if self.nodes[n].dbs.replication_supervisor_sender.len() > 0 { ev.push((3usize, n)); } n += 1; } }
         ev
     }
     pub fn step(&mut self, ev: (usize, usize)) {
@@ -125,7 +115,9 @@ impl Cluster {
                 if message != "ok" { l.back += 1; process_request(&message, &self.nodes[l.from].dbs, &mut l.conn); }
             }
         } else if ev.0 == 3 {
-            cluster_supervisor_step(&mut self.nodes[ev.1]);
+            // the node's REAL supervisor coroutine takes one message (started on first use: it takes over the supervisor queue)
+            if self.sups[ev.1].is_none() { let l = start_supervisor(&mut self.nodes[ev.1]); self.sups[ev.1] = Some(l); }
+            poll_once(self.sups[ev.1].as_mut().unwrap());
         } else {
             poll_once(&mut self.nodes[ev.1].repl);
         }
